@@ -48,10 +48,24 @@ def sites(repo):
                 continue
             lines = open(os.path.join(d, f)).read().split("\n")
             in_test = False
+            test_fn_depth = None  # inside a `#[test] fn`: skip until its closing brace
+            depth = 0
+            pending_test = False
             for i, l in enumerate(lines):
                 st = l.strip()
                 if st.startswith("#[cfg(test)]"):
                     in_test = True
+                if st.startswith("#[test]"):
+                    pending_test = True
+                opens, closes = l.count("{"), l.count("}")
+                if pending_test and "fn " in l and opens > 0:
+                    test_fn_depth = depth
+                    pending_test = False
+                depth += opens - closes
+                if test_fn_depth is not None:
+                    if depth <= test_fn_depth:
+                        test_fn_depth = None
+                    continue
                 if in_test or st.startswith("//") or st.startswith("#[") or "assert" in st or st.startswith("use "):
                     continue
                 code = l.split("//")[0]
